@@ -53,8 +53,10 @@ NONTRIVIAL_S = {
     "C14": lambda sc, f: f["failures_observed"] > 0,
     "C01": lambda sc, f: sc["n"] >= 2,
     "C10": lambda sc, f: any(s["flag"] for s in sc["specs"]),
+    "C13": lambda sc, f: any(s.get("dbg") for s in sc["specs"]),
 }
 RULE_S = {
+    "C13": "same generator, every scenario with debug nodes (flag on/off at call time, independently on/off while described; plain, nested, executors)",
     "C02": "random DAG scenarios under scripted completion orders; non-trivial: >=2 node starts and >=1 dependency edge",
     "C03": "same generator; non-trivial: >=2 nodes",
     "C04": "same generator; non-trivial: >=2 pooled nodes in flight at once, or the limit reached and a wait occurred",
@@ -80,7 +82,10 @@ def scenario_stream(seed, count, pid, with_corpus=True):
             kw["p_fail"] = 0.25
         if pid in ("C08",) and k % 2 == 0:
             kw["mixed"] = False
-        yield k, S.gen(rng, **kw)
+        sc = S.gen(rng, **kw)
+        if pid == "C13" and sc.get("op") != "setup":
+            S.mark_debug(rng, sc, p=0.3)
+        yield k, sc
 
 
 def enumerate_scripts(sc, limit):
@@ -125,6 +130,8 @@ def run_S(pid, tier, seed, cp_mode="real", props_monitored=None, extra_fail_sig=
     def one(sid, sc, obs):
         if "skipped" in obs:
             facts_total["skipped"] = facts_total.get("skipped", 0) + 1
+            if obs.get("config_refused"):
+                failures.append(Failure("correspondence", "valid-configuration-refused", sc, dict(raised=obs["config_refused"]), slice_="S"))
             return
         V, f = S.monitors(sc, obs)
         facts_total["evaluations"] += 1
@@ -411,8 +418,55 @@ def run_S_C04(pid, tier, seed):
 reg("C04", ["Props.C04_inflight_le_maxc", "Props.C04_resource_decides", "Props.C04_in_flight_sets_match_resource"] + COMMON_S_THEOREMS,
     run_S_C04,
     ASSUME_S + ["OS thread identity is observed by the harness (enter events), not modelled"])
+def run_S_and_gathers(pid, tier, seed):
+    """C05 speaks of ONE execution: it must also hold inside each of several executions of one DAG that are in flight
+    together (concurrent awaits in one loop), where nodes of different executions do overlap."""
+    cov, fs, searcher = run_S(pid, tier, seed)
+    base = random.Random("C05/g/%d" % seed)
+    n_g, seen, hits = (80 if tier == "quick" else 1500), 0, 0
+    n_dir = 24 if tier == "quick" else 200
+    for k in range(n_dir + n_g):
+        rng = random.Random(base.randrange(1 << 62))
+        if k < n_dir:
+            # directed: two pooled nodes and a sequential one that has to wait for them, below the concurrency limit; the
+            # other executions finish the SAME node ids while this execution still has one of them running
+            nd = lambda prio, seq, res: dict(preds=[], prio=prio, seq=seq, res=res, fail=False, flag=None, ret="t")  # noqa: E731
+            specs_ = [nd(3, False, "a"), nd(2, False, "a"), nd(1, True, rng.choice(["a", "a", "m"]))]
+            if rng.random() < 0.4:
+                specs_.append(nd(0, False, "a"))
+            sc = dict(n=len(specs_), specs=specs_, maxc=len(specs_) + 1, is_async=True, sel=None, nested=False,
+                      k=rng.choice([2, 2, 3]), script=dict(seed=rng.randrange(1 << 30)))
+        else:
+            sc = A.gen_gather(rng)
+        if not any(s_["seq"] for s_ in sc["specs"]):
+            sc["specs"][rng.randrange(sc["n"])]["seq"] = True
+        for s_ in sc["specs"]:
+            s_["setup"] = False
+        sc["gather_setup"] = False
+        out = A.run_gather(sc, rng.randrange(1 << 30))
+        seen += 1
+        probs = A.sequential_overlaps(sc, A.LAST_RUN[0])     # a run that hung is judged too, as far as it went
+        if probs:
+            hits += 1
+            fs.append(Failure("counterexample", "sequential-overlap-inside-one-of-several-concurrent-executions", sc,
+                              dict(problems=probs[:3]), slice_="A"))
+            if hits >= 3:
+                break
+        if out[0] == "hang":
+            # liveness of concurrent awaits is C17's business; a few more batches are tried (a stuck scheduler thread may
+            # stay behind in this process each time: only a few)
+            nh_ = cov.get("concurrent_execution_batches_hung", 0) + 1
+            cov["concurrent_execution_batches_hung"] = nh_
+            if nh_ >= 4:
+                break
+    cov["concurrent_execution_batches"] = seen
+    cov["evaluations"] += seen
+    cov["rule"] += "; plus batches of 2-8 concurrent awaits of one AsyncDAG holding a sequential node (overlap judged per execution)"
+    return cov, fs, searcher
+
+
 reg("C05", ["Props.C05_sequential_exclusive"] + COMMON_S_THEOREMS,
-    lambda pid, tier, seed: run_S(pid, tier, seed), ASSUME_S)
+    run_S_and_gathers, ASSUME_S)
 def run_S_and_G_C06(pid, tier, seed):
     """C06 = the scheduler picks by the table (slice S, model fed the documented priorities) + the table every
     kind of graph object carries is the documented one (slice G: whole DAG, executors, after config, composed)."""
@@ -1680,9 +1734,21 @@ def with_malformed(run, kinds):
     return wrapped
 
 
+def with_S(run):
+    """... and the scheduler slice on DAGs with debug nodes: which nodes really execute, and with which values."""
+    def wrapped(pid, tier, seed):
+        cov, fs, searcher = run(pid, tier, seed)
+        covs, fss, _ = run_S(pid, tier, seed)
+        cov["scheduler_runs"] = {k: v for k, v in covs.items() if k not in ("samples",)}
+        cov["evaluations"] += covs["evaluations"]
+        cov["rule"] += "; plus slice S: " + covs["rule"]
+        return cov, fs + fss, searcher
+    return wrapped
+
+
 reg("C13", ["Props.C13_pulled_debug_has_inputs", "Props.C13_flag_off_no_debug", "Props.C13_debug_nodes_never_influence", "Props.C12_selection_is_closure",
             "Props.C13_C11_build_rule", "Props.C13_accepted_table_debug_never_influences"],
-    with_malformed(run_G, ["normal-on-debug"]), ASSUME_G)
+    with_malformed(with_S(run_G), ["normal-on-debug"]), ASSUME_G)
 def nested_setup_histories():
     """A setup node inside a DAG that an outer DAG calls — plainly, or under an activation flag computed at run time — is
     still a setup node of the outer instance: over setup() / calls / an executor run it executes at most once and every
@@ -2038,6 +2104,12 @@ def run_T(pid, tier, seed):
                 failures.append(Failure("counterexample", "concurrent-call-got-foreign-result", dict(k=k, batch=b),
                                         dict(arg=arg, result=res), slice_="T"))
                 break
+    # first uses of an instance raced against each other under the minimum switch interval
+    runs_, problems_ = T.cold_start_stress(150 if tier == "quick" else 3000, seed)
+    stats["cold_start_concurrent_calls"] = runs_
+    for p_ in problems_[:3]:
+        failures.append(Failure("counterexample", "concurrent-first-call-got-wrong-result(%s)" % p_["variant"],
+                                dict(variant=p_["variant"], threads=p_["threads"]), p_, slice_="T"))
     # builds that really overlap: the others wait for the lock while the first is paused in its describing function
     stats["overlapping_build_batches"] = 0
     for b in range(12 if tier == "quick" else 120):
